@@ -27,7 +27,7 @@ func H_C20_w_paths() {
 	case 1:
 		spec.Depth, spec.Width = spec.Depth+3, 1
 	case 2:
-		spec.Depth, spec.NoListInList, spec.MapWidth = spec.Depth+1, false, 1 // lists directly inside lists
+		spec.Depth, spec.Width, spec.NoListInList, spec.MapWidth = spec.Depth+2, vP("nestwidth", 1, 2), false, 1 // lists directly inside lists
 	}
 	m := vNondetMap(spec)
 	k := vNondetString(1, 1, "ab")
